@@ -925,7 +925,7 @@ class Expression(Expr):
     @property
     def is_number(self) -> bool:
         return (isinstance(self, Literal) and not self.args["is_string"]) or (
-            isinstance(self, Neg) and self.this.is_number
+            isinstance(self, Neg) and self.this is not None and self.this.is_number
         )
 
     def to_py(self) -> t.Any:
